@@ -53,6 +53,7 @@ type Engine struct {
 	assumptions map[string]bool
 	tier        string
 	funcsDone   []string
+	pkgContract map[string]*FuncContract // package name -> "//@ package" section
 }
 
 func newEngine(repo, specDir string) (*Engine, error) {
@@ -133,12 +134,31 @@ func newEngine(repo, specDir string) (*Engine, error) {
 		}
 	}
 	eng.contracts = &ContractSet{Funcs: map[string]*FuncContract{}}
+	eng.pkgContract = map[string]*FuncContract{}
 	for _, p := range pkgs {
 		for _, gf := range p.GoFiles {
 			if filepath.Base(gf) == "verif_contracts.go" {
 				cs := &ContractSet{Funcs: map[string]*FuncContract{}}
 				if err := parseContractFile(gf, cs); err != nil {
 					return nil, err
+				}
+				if pc := cs.Funcs["package"]; pc != nil {
+					// package section: its macros are visible in every contract of the file
+					for _, k := range cs.Order {
+						fc := cs.Funcs[k]
+						if fc == pc {
+							continue
+						}
+						if fc.Defines == nil {
+							fc.Defines = map[string]*Define{}
+						}
+						for n, d := range pc.Defines {
+							if _, own := fc.Defines[n]; !own {
+								fc.Defines[n] = d
+							}
+						}
+					}
+					eng.pkgContract[p.Types.Name()] = pc
 				}
 				for _, k := range cs.Order {
 					key := p.Types.Name() + "." + k
@@ -169,7 +189,7 @@ func (eng *Engine) contractOf(fn *ssa.Function) *FuncContract {
 func (eng *Engine) findFunc(key string) *ssa.Function {
 	for fn := range ssautil.AllFunctions(eng.prog) {
 		if fn.Pkg != nil && (fn.Pkg.Pkg.Name() == "spg" || fn.Pkg.Pkg.Name() == "main") || fn.Parent() != nil {
-			if eng.fnKey(fn) == key && fn.Synthetic == "" {
+			if eng.fnKey(fn) == key && (fn.Synthetic == "" || (fn.Name() == "init" && fn.Parent() == nil)) {
 				return fn
 			}
 		}
